@@ -226,6 +226,41 @@ def _rolling_rows(ctx, f):
     return True
 
 
+def r02g(ctx):
+    m = ctx.model
+    ctx.rule("R02g", "leaf equality keeps scalar kinds apart: Python's == identifies True with 1 and False with 0, so the "
+                     "LeafNode branch of LeafNode.__eq__ must conjoin the value comparison with a kind agreement "
+                     "(isinstance(a, bool) == isinstance(b, bool), or type(a) is type(b)); every zero-cost shortcut "
+                     "(R02a) rests on this equality")
+    q = m.need_class("LeafNode")
+    f = m.method(q, "__eq__")
+    o = func_params(f.node)[1]
+    rets = []
+    for r in walk_no_nested(f.node):
+        if isinstance(r, ast.Return) and r.value is not None:
+            facts = [ast.unparse(t).replace(" ", "") for t, pol in flatten_conditions(dominating_conditions(r)) if pol]
+            if f"isinstance({o},LeafNode)" in facts:
+                rets.append(r)
+    ctx.floor("R02g", len(rets), 1, "returns of LeafNode.__eq__ for a leaf operand")
+    for r in rets:
+        conj = r.value.values if isinstance(r.value, ast.BoolOp) and isinstance(r.value.op, ast.And) else [r.value]
+        txt = [ast.unparse(c).replace(" ", "") for c in conj]
+        value = any(t in (f"self.object=={o}.object", f"{o}.object==self.object") for t in txt)
+        kinds = (f"isinstance(self.object,bool)==isinstance({o}.object,bool)", f"isinstance({o}.object,bool)==isinstance(self.object,bool)",
+                 f"type(self.object)istype({o}.object)", f"type(self.object)==type({o}.object)", f"type({o}.object)istype(self.object)",
+                 f"type(self)istype({o})", f"self.__class__is{o}.__class__")
+        kind = any(t in kinds for t in txt)
+        if value and kind:
+            ctx.proved("R02g", f.file, "LeafNode.__eq__", r, "kind agreement", f"`{norm(r.value, 90)}`")
+        elif value:
+            ctx.violation("R02g", f.file, "LeafNode.__eq__", r, "kind agreement",
+                          f"`{norm(r, 60)}` compares the wrapped objects only; True == 1 and False == 0 in Python, so a boolean "
+                          f"leaf equals a numeric leaf: [1, true] vs [true, 1] costs 0 and exits with status 0, and with "
+                          f"--dict-strategy none the key 1 is paired with the key true")
+        else:
+            ctx.inconclusive("R02g", f.file, "LeafNode.__eq__", r, "kind agreement", f"`{norm(r, 60)}` is not a value comparison of the wrapped objects")
+
+
 def r02d(ctx):
     m = ctx.model
     ctx.rule("R02d", "main returns status 1 iff had_edits; had_edits starts False and each output mode sets it from "
@@ -399,6 +434,7 @@ def run(ctx):
     r02d(ctx)
     r02e(ctx)
     r02f(ctx)
+    r02g(ctx)
     from . import c14
     from .. import cli
     f, specs, groups = cli.parse_cli(m)
